@@ -361,7 +361,7 @@ func SnapshotOf(ns operatorstorage.Storage, self uint64) (Snapshot, error) {
 		rs.NextNonce = int(n)
 		s.Recipients = append(s.Recipients, rs)
 	}
-	_ = self
+	s.Self = self
 	return s, nil
 }
 
@@ -375,7 +375,16 @@ func FreshSnapshot(st *Store) (Snapshot, error) {
 	if err != nil {
 		return Snapshot{}, err
 	}
-	return SnapshotOf(ns, 0)
+	// setupOperatorStorage: the node finds its own operator id by looking its public key up
+	var self uint64
+	od, found, err := ns.GetOperatorDataByPubKey(nil, ThePool().OwnPub)
+	if err != nil {
+		return Snapshot{}, err
+	}
+	if found && od != nil {
+		self = od.ID
+	}
+	return SnapshotOf(ns, self)
 }
 
 // KMSnapshot is what the key manager holds: account public keys (sorted, with multiplicity) and, for
@@ -426,20 +435,18 @@ func BuildLog(sc Scenario, e Ev) ethtypes.Log {
 	owner := p.Owners[e.O]
 	switch e.K {
 	case "opadd":
-		pub := ForeignPub(e.Op)
-		if sc.Us != 0 && e.Op == uint64(sc.Us) {
-			pub = p.OwnPub
-		}
-		return p.LogOperatorAdded(e.Op, owner, pub)
+		return p.LogOperatorAdded(e.Op, owner, OpKey(sc.Us, e))
 	case "oprem":
 		return p.LogOperatorRemoved(e.Op)
 	case "vadd":
 		vk := p.Vals[e.V]
 		var pubs, encs [][]byte
+		self := sc.SelfID()
+		// the i-th public share and the i-th encrypted key belong to the i-th operator id AS LISTED
 		for i, id := range e.Ops {
 			j := i % MaxShares
 			pubs = append(pubs, vk.SharePubs[j])
-			if sc.Us != 0 && id == uint64(sc.Us) {
+			if self != 0 && id == self {
 				encs = append(encs, p.OwnCipher(e.V, j, e.Own))
 			} else {
 				encs = append(encs, filler(0x11, e.V, j))
@@ -484,7 +491,7 @@ type Block struct {
 
 // Cut splits the event sequence into blocks. cuts[i%len(cuts)] says whether a block ends after event
 // i; gaps[j%len(gaps)] (>=1) is the distance of block j from its predecessor. A meta step always ends
-// the current block. Blocks are never empty (the execution client only delivers blocks with logs).
+// the current block. Cut never yields empty blocks; WithMarkers adds the client's empty progress markers.
 func Cut(sc Scenario, cuts []bool, gaps []int) (pre []int, blocks []Block) {
 	var cur *Block
 	num := uint64(0)
@@ -522,6 +529,32 @@ func Cut(sc Scenario, cuts []bool, gaps []int) (pre []int, blocks []Block) {
 	}
 	flush()
 	return pre, blocks
+}
+
+// WithMarkers inserts the empty BlockLogs the execution client emits as progress markers when a fetched
+// range holds no registry logs (eth/executionclient: "Emit empty block logs to indicate that we have
+// advanced to this block"): after block j when markers[j%len(markers)] is set and the next block's
+// number leaves room, and before the first block when markers[0] is set and its number is > 1.
+func WithMarkers(blocks []Block, markers []bool) []Block {
+	if len(markers) == 0 || len(blocks) == 0 {
+		return blocks
+	}
+	var out []Block
+	if markers[0] && blocks[0].Number > 1 {
+		out = append(out, Block{Number: blocks[0].Number - 1})
+	}
+	for j, b := range blocks {
+		out = append(out, b)
+		if !markers[j%len(markers)] {
+			continue
+		}
+		n := b.Number + 1
+		if j+1 < len(blocks) && blocks[j+1].Number <= n {
+			continue
+		}
+		out = append(out, Block{Number: n})
+	}
+	return out
 }
 
 // Logs builds the BlockLogs of a block.
